@@ -3,6 +3,7 @@
 //   - ThresholdSplitInsecure with a scripted reader (exact shares),
 //   - ThresholdSplit (CSPRNG; relational check in Coq),
 //   - RecoverSecret on sampled share subsets (also below the threshold),
+//
 // for evaluation against coq/Tbls/ShamirZ.v, and runs the group-side monitors directly on the real
 // curve: every subset of >= t shares recovers secret / group public key / group signature, and a
 // single substitution of a share, an index or a message verifies exactly in the degenerate cases
@@ -108,21 +109,21 @@ type RecCase struct {
 
 // Scenario is one group-side monitor evaluation; it is also the replay format.
 type Scenario struct {
-	Kind   string   `json:"kind"` // positive | wrong_share | wrong_index | moved_index | wrong_message
-	Secret string   `json:"secret"`
-	Coeffs []string `json:"coeffs"` // higher coefficients handed to ThresholdSplitInsecure through the reader
-	N      int      `json:"n"`
-	T      int      `json:"t"`
-	S      []int    `json:"s"`
-	J      int      `json:"j,omitempty"`      // substituted position
-	K      int      `json:"k,omitempty"`      // other index
-	Foreign string  `json:"foreign,omitempty"` // foreign secret for wrong_share
-	Msg    string   `json:"msg_hex"`            // message, hex (lengths 0, 1, 31, 32, 33, 64, 96 are cycled)
-	Msg2   string   `json:"msg2_hex,omitempty"` // the other message of wrong_message, related to Msg
-	Calls  []Call   `json:"calls,omitempty"`    // kind "sequence": the call sequence against the process-wide tbls implementation
-	GCalls []GCall  `json:"gcalls,omitempty"`   // kind "fail_sequence": failing calls interleaved with honest calls (failhist_test.go)
-	Shares []string `json:"shares,omitempty"` // explicit shares of ids 1..n (ThresholdSplit output) instead of Coeffs
-	Shape  string   `json:"shape,omitempty"`
+	Kind    string   `json:"kind"` // positive | wrong_share | wrong_index | moved_index | wrong_message
+	Secret  string   `json:"secret"`
+	Coeffs  []string `json:"coeffs"` // higher coefficients handed to ThresholdSplitInsecure through the reader
+	N       int      `json:"n"`
+	T       int      `json:"t"`
+	S       []int    `json:"s"`
+	J       int      `json:"j,omitempty"`        // substituted position
+	K       int      `json:"k,omitempty"`        // other index
+	Foreign string   `json:"foreign,omitempty"`  // foreign secret for wrong_share
+	Msg     string   `json:"msg_hex"`            // message, hex (lengths 0, 1, 31, 32, 33, 64, 96 are cycled)
+	Msg2    string   `json:"msg2_hex,omitempty"` // the other message of wrong_message, related to Msg
+	Calls   []Call   `json:"calls,omitempty"`    // kind "sequence": the call sequence against the process-wide tbls implementation
+	GCalls  []GCall  `json:"gcalls,omitempty"`   // kind "fail_sequence": failing calls interleaved with honest calls (failhist_test.go)
+	Shares  []string `json:"shares,omitempty"`   // explicit shares of ids 1..n (ThresholdSplit output) instead of Coeffs
+	Shape   string   `json:"shape,omitempty"`
 }
 
 // Call is one Verify / VerifyAggregate call of a stateful sequence with the verdict the (pure) model gives.
@@ -142,24 +143,26 @@ type Violation struct {
 }
 
 type Out struct {
-	Lagrange   []LagCase      `json:"lagrange"`
-	Split      []SplitCase    `json:"split"`
-	Secure     []SecureCase   `json:"secure"`
-	Recover    []RecCase      `json:"recover"`
-	GroupEvals int            `json:"group_evals"`
-	GroupKinds map[string]int `json:"group_kinds"`
-	Degenerate int            `json:"degenerate_expected_verifies"`
-	Violations []Violation    `json:"violations"`
-	Dist       map[string]int `json:"dist"`
-	Broken     []string       `json:"broken"` // correspondence breaks that are not property violations
-	HistCalls  int            `json:"history_calls"`
-	HistBlocks int            `json:"history_blocks"`
-	HistStats  map[string]int `json:"history_stats"`
-	FailBlocks int            `json:"failure_history_sequences"`
-	FailCalls  int            `json:"failure_history_calls"`
-	FailStats  map[string]int `json:"failure_history_stats"`
-	Distinct   int            `json:"distinct_scenarios"`
-	Samples    []Scenario     `json:"samples"`
+	Lagrange    []LagCase      `json:"lagrange"`
+	Split       []SplitCase    `json:"split"`
+	Secure      []SecureCase   `json:"secure"`
+	Recover     []RecCase      `json:"recover"`
+	GroupEvals  int            `json:"group_evals"`
+	GroupKinds  map[string]int `json:"group_kinds"`
+	Degenerate  int            `json:"degenerate_expected_verifies"`
+	Violations  []Violation    `json:"violations"`
+	Dist        map[string]int `json:"dist"`
+	Broken      []string       `json:"broken"` // correspondence breaks that are not property violations
+	HistCalls   int            `json:"history_calls"`
+	HistBlocks  int            `json:"history_blocks"`
+	HistStats   map[string]int `json:"history_stats"`
+	FailBlocks  int            `json:"failure_history_sequences"`
+	FailCalls   int            `json:"failure_history_calls"`
+	FailStats   map[string]int `json:"failure_history_stats"`
+	AliasBlocks int            `json:"alias_sequences"`
+	FarIDCalls  int            `json:"far_id_calls"`
+	Distinct    int            `json:"distinct_scenarios"`
+	Samples     []Scenario     `json:"samples"`
 }
 
 func subsetsOf(n int, minSize int) [][]int {
@@ -202,7 +205,7 @@ func lagrange(t *testing.T, ids []int) []string {
 		}
 		res, err := rtbls.RecoverSecret(sh, uint(len(ids)), uint(len(ids)))
 		if err != nil {
-			t.Fatalf("RecoverSecret on unit vector: %v", err)
+			return nil // reported by the caller: the model has coefficients for every set of distinct non-zero ids
 		}
 		out = append(out, dec(bi(res)))
 	}
@@ -257,6 +260,9 @@ func runScenario(t *testing.T, s Scenario) (string, bool) {
 	}
 	if s.Kind == "fail_sequence" {
 		return runGCalls(t, s.GCalls, 5), false
+	}
+	if s.Kind == "alias" {
+		return aliasBlock(t, s), false
 	}
 	secret := undec(s.Secret)
 	var script []*big.Int
@@ -429,7 +435,7 @@ func relatedMsgs(r *rand.Rand, a []byte) [][]byte {
 	add(cat(a, []byte{0}))
 	add(cat(a, make([]byte, 32)))
 	if len(a) < 32 {
-		add(cat(a, make([]byte, 32-len(a))))           // zero-extended to 32 bytes
+		add(cat(a, make([]byte, 32-len(a))))                // zero-extended to 32 bytes
 		add(cat(a, make([]byte, 32-len(a)), randMsg(r, 8))) // ... and a tail
 	}
 	if len(a) > 32 {
@@ -752,8 +758,21 @@ func TestGen(t *testing.T) {
 			sets = append(sets, randSubset(r, 10, 2+r.Intn(9)))
 		}
 	}
+	// id sets with large, wrapped (mod 256 / 2^16 / 2^32) and negative ids: the model computes over Z
+	sets = append(sets, []int{257, 2, 3}, []int{1, 257}, []int{1, 2, 259}, []int{1, 257, 513}, []int{65537, 2, 3}, []int{1, 65537},
+		[]int{2147483647, 1, 2}, []int{2147483649, 2, 3}, []int{4294967297, 2, 3}, []int{1, 4294967297}, []int{-255, 2, 3}, []int{-1, 1}, []int{255, 256, 257, 258})
+	for i := 0; i < 12; i++ {
+		s := randSubset(r, 7, 2+r.Intn(4))
+		s[r.Intn(len(s))] += 256 * (1 + r.Intn(300))
+		sets = append(sets, s)
+	}
 	for _, s := range sets {
-		out.Lagrange = append(out.Lagrange, LagCase{ID: len(out.Lagrange), IDs: s, Coeffs: lagrange(t, s)})
+		cs := lagrange(t, s)
+		if cs == nil {
+			out.Broken = append(out.Broken, fmt.Sprintf("RecoverSecret fails on the distinct non-zero share ids %v", s))
+			continue
+		}
+		out.Lagrange = append(out.Lagrange, LagCase{ID: len(out.Lagrange), IDs: s, Coeffs: cs})
 		out.Dist[fmt.Sprintf("lagrange_size_%d", len(s))]++
 	}
 
@@ -791,6 +810,7 @@ func TestGen(t *testing.T) {
 			addSplit("edge", []*big.Int{big.NewInt(0), big.NewInt(1), rm1, randScalar(r)}[r.Intn(4)], n, th, []*big.Int{big.NewInt(0), rm1, big.NewInt(1), big.NewInt(0)})
 		}
 	}
+	addSplit("more_than_255_shares", randScalar(r), 300, 3, nil)
 	addSplit("threshold_1", randScalar(r), 3, 1, nil)
 	addSplit("threshold_0", randScalar(r), 3, 0, nil)
 	addSplit("threshold_gt_total", randScalar(r), 2, 3, nil)
@@ -1030,6 +1050,47 @@ func TestGen(t *testing.T) {
 		b, c, st, vs := failureHistory(t, r, thorough)
 		out.FailBlocks, out.FailCalls, out.FailStats = b, c, st
 		out.Violations = append(out.Violations, vs...)
+	}
+
+	// ---- H. input aliasing (alias_test.go)
+	for ci, cfg := range [][2]int{{3, 2}, {4, 3}, {5, 5}} {
+		for li, ml := range msgLens {
+			if ml == 0 || (!thorough && ci == 2 && li%2 == 0) {
+				continue
+			}
+			n, th := cfg[0], cfg[1]
+			var coeffs []*big.Int
+			for i := 1; i < th; i++ {
+				coeffs = append(coeffs, randScalar(r))
+			}
+			a := randMsg(r, ml)
+			b := randMsg(r, ml)
+			if ml >= 33 && li%2 == 1 {
+				b = append(clone(a[:32]), randMsg(r, ml-32)...) // same 32-byte prefix
+			}
+			if bytes.Equal(a, b) {
+				b[len(b)-1] ^= 1
+			}
+			sc := Scenario{Kind: "alias", Secret: dec(randScalar(r)), Coeffs: decs(coeffs), N: n, T: th, Msg: hex.EncodeToString(a), Msg2: hex.EncodeToString(b)}
+			out.AliasBlocks++
+			if what := aliasBlock(t, sc); what != "" && len(out.Violations) < 20 {
+				out.Violations = append(out.Violations, Violation{Key: "history:input-aliasing", What: what, Replay: sc})
+			}
+		}
+	}
+
+	// ---- I. large, wrapped and negative share ids; splits with more than 255 shares (alias_test.go)
+	{
+		nv := 0
+		for _, c := range farIDs(t, r, thorough) {
+			out.FarIDCalls++
+			if got := execG(t, c); got != c.Expect && nv < 6 {
+				nv++
+				out.Violations = append(out.Violations, Violation{Key: "index:large-or-wrapped-share-id",
+					What:   fmt.Sprintf("%s(%v) [%s]: got %s, the pure function over the integers gives %s", c.Op, c.IDs, c.Note, short(got), short(c.Expect)),
+					Replay: Scenario{Kind: "fail_sequence", N: c.N, T: c.T, GCalls: []GCall{c}}})
+			}
+		}
 	}
 
 	out.Distinct = len(seen)
